@@ -11,7 +11,8 @@ CORE = dict(
         dict(role="as-coded", module="MCCore.tla", cfg="core_ascoded.cfg", extra=["-continue"],
              overrides_quick={"MaxSeq": "1"}, overrides_thorough={"MaxSeq": "2"}, timeout_thorough=1500),
     ],
-    gen=dict(module="MCCore.tla", cfgs=[("gen_core.cfg", 1.0)], quick=(48, 40), thorough=(640, 60)),
+    gen=dict(module="MCCore.tla", cfgs=[("gen_core.cfg", 0.6), ("gen_core_replay.cfg", 0.3), ("gen_core_long.cfg", 0.1)],
+             quick=(64, 40), thorough=(800, 60), depth_factor={"gen_core_long.cfg": 2.5}),
     trace=dict(module="TraceCore.tla", cfg="trace_core.cfg"),
     harness=dict(family="core", chains=3, links=T3),
     assumptions=[
